@@ -224,7 +224,7 @@ func (cx *Ctx) oracleRealRace(rs []JobResult) (bool, string, string, string) {
 }
 
 func (cx *Ctx) runC15() {
-	nSpecs := cx.count(300, 12000)
+	nSpecs := cx.count(300, 4000)
 	nSched := 8
 	if cx.Tier == "thorough" {
 		nSched = 32
